@@ -164,6 +164,10 @@ pub fn run(repo: &Path) -> String {
     emit_fn(&mut out, "taPostSaveTasks", "TaProxyEvent", &ta_events, &arm_table(&mq, "ta_proxy_post_save_events"));
 
     // RepositoryManager methods and the tasks they schedule
+    // per method: is every change of the repository content (`self.content.…`) made BEFORE the first
+    // task is scheduled? (a task scheduled first can be run, and found to have nothing to do, before
+    // the change it is meant for exists)
+    let mut sched_last: Vec<(String, bool)> = Vec::new();
     let mut methods: Vec<(String, Vec<String>)> = Vec::new();
     for item in &pubd.items {
         if let syn::Item::Impl(imp) = item {
@@ -175,6 +179,14 @@ pub fn run(repo: &Path) -> String {
                     let mut tr = TaskRefs(Vec::new());
                     tr.visit_block(&f.block);
                     methods.push((f.sig.ident.to_string(), tr.0));
+                    let body = compact(&f.block);
+                    let first_sched = body.find(".tasks().schedule");
+                    let last_content = body.rfind("self.content.");
+                    let ok = match (first_sched, last_content) {
+                        (Some(s), Some(c)) => c < s,
+                        _ => true,
+                    };
+                    sched_last.push((f.sig.ident.to_string(), ok));
                 }
             }
         }
@@ -189,6 +201,11 @@ pub fn run(repo: &Path) -> String {
     for (m, ts) in &methods {
         let l = ts.join(", ");
         out.push_str(&format!("  | .{} => [{l}]\n", lean_ident(m)));
+    }
+    out.push_str("\n/-- In the method's source every `self.content.…` call precedes the first `tasks().schedule…` call. -/\n");
+    out.push_str("def pubdScheduleAfterChange : PubdMethod → Bool\n");
+    for (m, ok) in &sched_last {
+        out.push_str(&format!("  | .{} => {ok}\n", lean_ident(m)));
     }
     out.push_str("\nend KM.Generated\n");
     out
